@@ -117,6 +117,10 @@ def gen(seed, run, tier='quick'):
         # (one TableConverter object may serve several types)
         'hreg': rng.choice([0, 0, 1, 2]),
         'hrem': rng.choice([0, 0, 1]),
+        # many registrations at once (sizes are a knob, too: a stack of
+        # 300 converters is as legal as one of 3)
+        'regn': rng.choice([0, 0, 0, 1]),
+        'remn': rng.choice([0, 0, 0, 1]),
         'subreg': rng.choice([0, 0, 1, 2]),
         'subrem': rng.choice([0, 0, 1]),
     }
@@ -230,6 +234,15 @@ def gen(seed, run, tier='quick'):
             toks.append(['greg', rng.randrange(n_g)])
         elif k == 'grem':
             toks.append(['grem', rng.randrange(n_g)])
+        elif k == 'regn':
+            c = rng.randrange(n_mc)
+            n_ = rng.choice([3, 40, 300])
+            toks.append(['regn', c, n_])
+            mstack.extend([c] * n_)
+        elif k == 'remn':
+            n_ = rng.choice([3, 40, 300])
+            toks.append(['remn', n_])
+            del mstack[max(0, len(mstack) - n_):]
         elif k in ('hreg', 'hrem'):
             tabs = [j for j, g in enumerate(gconvs)
                     if g['kind'] in ('table', 'subtable')]
@@ -366,6 +379,20 @@ def execute(h):
         return mc
 
     mconvs = [build_mconv(spec) for spec in cfg['mconvs']]
+
+    def table_arg(tab, salt):
+        rows = [(u1, u2, f, o) for (u1, u2), (f, o) in tab.items()]
+        form = salt % 5
+        if form == 0:
+            return tab
+        if form == 1:
+            return rows
+        if form == 2:
+            return (r_ for r_ in rows)
+        if form == 3:
+            return zip(*[[r_[j] for r_ in rows] for j in range(4)]) \
+                if rows else iter(())
+        return tuple(rows)
     G = QuantityMeta('G', (Quantity,), {})
     gunits = [G.new_unit(f'g{i}') for i in range(3)]
     H = QuantityMeta('H', (Quantity,), {})
@@ -413,10 +440,10 @@ def execute(h):
                    (_frac(e[1]), _frac(e[2]))
                    for us in (gunits, hunits)
                    for key, e in sorted(spec['table'].items())}
-            # the table as mapping, or as list of 4-tuples
-            gconvs.append(TableConverter(
-                tab if k % 2 else [(u1, u2, f, o)
-                                   for (u1, u2), (f, o) in tab.items()]))
+            # the table as mapping, as list of 4-tuples, or as a one-shot
+            # iterable of them (generator, zip)
+            gconvs.append(TableConverter(table_arg(tab, len(str(
+                spec['table'])) + k)))
         elif spec['kind'] == 'subtable':
             tab = {(us[int(key[0])], us[int(key[1])]):
                    (_frac(e[1]), _frac(e[2]))
@@ -438,7 +465,7 @@ def execute(h):
                     if (us.index(qty.unit), us.index(to_unit)) in _declined:
                         return None
                     return super().__call__(qty, to_unit)
-            gconvs.append(RangeTable(tab))
+            gconvs.append(RangeTable(table_arg(tab, len(spec['table']) + k)))
         elif spec['kind'] == 'method':
             gconvs.append(_Method(Stub(k, spec['table'])))
         elif spec['kind'] == 'unhashable':
@@ -875,6 +902,27 @@ def execute(h):
                     violate('money_remove', 'top_refused', i,
                             observed=list(o))
                 after(i, o[0])
+        elif op == 'regn':
+            c = t[1] % len(mconvs)
+            for _ in range(t[2]):
+                Money.register_converter(mconvs[c])
+                mstack.append(c)
+            bump(probes, 'deep_stack_%d' % (len(mstack) // 100 * 100))
+            after(i, 'ok')
+        elif op == 'remn':
+            done = 0
+            for _ in range(t[1]):
+                if not mstack:
+                    break
+                top = next(iter(Money.registered_converters()), None)
+                o = observe(lambda: Money.remove_converter(top))
+                if o[0] != 'ok':
+                    violate('money_remove', 'top_refused', i,
+                            depth=len(mstack), observed=list(o))
+                mstack.pop()
+                done += 1
+            top = None
+            after(i, done)
         elif op == 'regbad':
             bad = [None, 17, gref(0)][t[1] % 3]
             o = observe(lambda: Money.register_converter(bad))
@@ -1099,6 +1147,23 @@ def execute(h):
             i = j + 1
 
     try:
+        # a table converter answers for the pairs its table covers (in
+        # either direction) - however the table was handed over
+        for gi_, spec_ in enumerate(cfg['gconvs']):
+            if spec_['kind'] not in ('table', 'subtable'):
+                continue
+            for p_ in gpairs:
+                a_, b_, _k = p_
+                e_ = spec_['table'].get(f"{a_}{b_}")
+                fwd = e_ is not None
+                e_ = e_ or spec_['table'].get(f"{b_}{a_}")
+                if e_ is None:
+                    continue
+                declined = spec_['kind'] == 'subtable' and len(e_) > 3 and \
+                    (e_[3] == 2 or (e_[3] == 0) == fwd)
+                if not declined and ganswers[gi_][p_][0] == 'none':
+                    violate('generic_convert', 'table_declines_what_it_'
+                            'covers', -1, conv=gi_, pair=list(p_))
         sweep(-1)
         try:
             block(0, len(toks), 0)
@@ -1149,6 +1214,8 @@ def _sym(t):
         return {'hreg': 'h', 'hrem': 'y'}[op] + str(t[1] % 3)
     if op == 'thread':
         return 't.'
+    if op in ('regn', 'remn'):
+        return {'regn': 'N', 'remn': 'n'}[op] + '.'
     return '??'
 
 
